@@ -1,4 +1,5 @@
 import LibInj.Proofs.Decode
+import LibInj.Proofs.SchemeEnc
 import LibInj.Properties.C04
 set_option linter.unusedSimpArgs false
 /-! # C19 — script-capable URL schemes are recognised through any character encoding
@@ -10,8 +11,15 @@ whose value would exceed `0x1000FF` is a literal ampersand, it never wraps aroun
 (`matcher_total`). Class E (kernel-evaluated on the model): every scheme under every single-position
 encoding form of the property is recognised (`encoded_schemes_recognised`).
 
-Not yet a theorem: `scheme_encoded_detected_statement` (arbitrary mixes of encodings, by
-induction over the scheme's bytes); decided by the enumeration oracle and the correspondence. -/
+**Proved for every value (`scheme_encoded_detected`, the main clause of the property):** if, after
+any run of leading bytes `<= 0x20` or `>= 0x7F`, the value spells `javascript:`, `vbscript:`, `data:`
+or `view-source:` through **any mix** of units — where a unit is whatever the decoder consumes in one
+step with the right value up to case (`Enc`), NUL and LF units allowed anywhere — then `isBlackURL`
+answers true, whatever follows. The syntactic forms of a unit are theorems too: a literal byte
+(`unit_lit`), a decimal reference with `;` and any number of leading zeros (`unit_dec`), the same
+without `;` before a byte that cannot continue it (`unit_dec_open`), a hexadecimal reference with `;`,
+either case of `x` and of the digits (`unit_hex`; the hex map is a fact about the regenerated table).
+Not a theorem: the hexadecimal form without `;` (covered by the enumeration oracle). -/
 namespace LibInj.Properties.C19
 open LibInj LibInj.Xss LibInj.Properties.C04
 
@@ -66,8 +74,68 @@ theorem unterminated_references_recognised :
      [118,98,38,35,49,49,53,99,114,105,112,116,58], [100,38,35,88,52,49,116,97,58]].all
       (fun v => isOkTrue (isBlackURL v)) = true := by decide +kernel
 
-def scheme_encoded_detected_statement : Prop :=
-  ∀ (junk rest : Bytes), (∀ c ∈ junk, c ≤ 32 ∨ c ≥ 127) → isBlackURL (junk ++ javascript ++ rest) = .ok true
+/-- the schemes of the property, as the matcher compares them (upper-cased) -/
+def schemes : List Bytes := [bs "JAVASCRIPT:", bs "VBSCRIPT:", bs "DATA:", bs "VIEW-SOURCE:"]
+
+/-- **C19, main clause: a scheme spelled through any mix of encodings is recognised.** -/
+theorem scheme_encoded_detected (junk e sc : Bytes) (hj : ∀ c ∈ junk, c ≤ 32 ∨ c ≥ 127) (hsc : sc ∈ schemes)
+    (h : Enc sc e) : isBlackURL (junk ++ e) = .ok true := by
+  have hj' : ∀ c ∈ junk, urlJunk c = true := by
+    intro c hc
+    unfold urlJunk
+    rcases hj c hc with h1 | h1 <;> simp [h1]
+  simp only [schemes, List.mem_cons, List.mem_nil_iff, or_false] at hsc
+  rcases hsc with rfl | rfl | rfl | rfl
+  · have e1 : bs "JAVASCRIPT:" = [74,65,86,65] ++ bs "SCRIPT:" := by decide +kernel
+    rw [e1] at h
+    exact scheme_enc_detected junk e _ hj' (by decide) (enc_prefix h)
+  · have e1 : bs "VBSCRIPT:" = [86,66,83,67,82,73,80,84] ++ [58] := by decide +kernel
+    rw [e1] at h
+    exact scheme_enc_detected junk e _ hj' (by decide) (enc_prefix h)
+  · have e1 : bs "DATA:" = [68,65,84,65] ++ [58] := by decide +kernel
+    rw [e1] at h
+    exact scheme_enc_detected junk e _ hj' (by decide) (enc_prefix h)
+  · have e1 : bs "VIEW-SOURCE:" = [86,73,69,87,45,83,79,85,82,67,69] ++ [58] := by decide +kernel
+    rw [e1] at h
+    exact scheme_enc_detected junk e _ hj' (by decide) (enc_prefix h)
+
+/-- a literal byte, in either case, is a unit for its upper-case image -/
+theorem enc_lit (c : UInt8) (sc e : Bytes) (h38 : c ≠ 38) (h32 : 32 < c.toNat) (h : Enc sc e) :
+    Enc (upperAscii c :: sc) (c :: e) := by
+  have hacc : accByte (c.toNat : Int) = upperAscii c := by
+    have := forall_byte (fun c => accByte (c.toNat : Int) == upperAscii c) (by decide +kernel) c
+    simpa using this
+  exact Enc.char (upperAscii c) [c] c.toNat (unit_lit c e h38) (by omega) hacc h
+
+/-- a decimal reference with `;` whose value is a letter (either case) or any other byte above 32 -/
+theorem enc_dec (ds sc e : Bytes) (C : UInt8) (hne : ds ≠ []) (hall : ds.all isDig = true) (hv : decFrom 0 ds ≤ 0x1000FF)
+    (h32 : 32 < decFrom 0 ds) (hC : accByte (decFrom 0 ds : Nat) = C) (h : Enc sc e) :
+    Enc (C :: sc) (([38, 35] ++ ds ++ [59]) ++ e) :=
+  Enc.char C _ _ (unit_dec ds e hne hall hv) (by omega) hC h
+
+/-- a hexadecimal reference with `;` -/
+theorem enc_hex (x : UInt8) (hx : x = 120 ∨ x = 88) (ds sc e : Bytes) (C : UInt8) (hne : ds ≠ [])
+    (hall : ds.all isHex = true) (hv : hexFrom 0 ds ≤ 0x1000FF)
+    (h32 : 32 < hexFrom 0 ds) (hC : accByte (hexFrom 0 ds : Nat) = C) (h : Enc sc e) :
+    Enc (C :: sc) (([38, 35, x] ++ ds ++ [59]) ++ e) :=
+  Enc.char C _ _ (unit_hex x hx ds e hne hall hv) (by omega) hC h
+
+/-- a literal NUL or LF between units -/
+theorem enc_nul (c : UInt8) (hc : c = 0 ∨ c = 10) (sc e : Bytes) (h : Enc sc e) : Enc sc (c :: e) :=
+  Enc.skip [c] c.toNat (unit_lit c e (by rcases hc with rfl | rfl <;> decide))
+    (by rcases hc with rfl | rfl <;> simp) h
+
+/-- non-vacuity: `&#x6A;&#0097;` NUL `V` LF `&#X41;script:alert(1)` spells `JAVASCRIPT:` -/
+example : Enc [74, 65, upperAscii 86, 65] ([38, 35, 120] ++ [54, 65] ++ [59] ++ ([38, 35] ++ [48, 48, 57, 55] ++ [59] ++
+    0 :: 86 :: 10 :: ([38, 35, 88] ++ [52, 49] ++ [59] ++ bs "script:alert(1)"))) := by
+  have h0 : Enc [] (bs "script:alert(1)") := Enc.done _
+  have h1 := enc_hex 88 (Or.inr rfl) [52, 49] [] _ 65 (by decide) (by decide) (by decide) (by decide) (by decide) h0
+  have h2 := enc_nul 10 (Or.inr rfl) _ _ h1
+  have h3 := enc_lit 86 _ _ (by decide) (by decide) h2
+  have h4 := enc_nul 0 (Or.inl rfl) _ _ h3
+  have h5 := enc_dec [48,48,57,55] _ _ 65 (by decide) (by decide) (by decide) (by decide) (by decide) h4
+  have h6 := enc_hex 120 (Or.inl rfl) [54, 65] _ _ 74 (by decide) (by decide) (by decide) (by decide) (by decide) h5
+  exact h6
 
 example : (variants javascript).length = 132 := by decide +kernel
 
